@@ -127,8 +127,29 @@ func c12(ctx *Ctx) (*Outcome, error) {
 				}
 			}
 		}
-		c := &detCase{fs: fs, sig: fmt.Sprintf("files=%d dirs=%v yaml=%v ties=%v", len(fs.Files), o.Dirs, o.YAML, i%3 == 1)}
+		c := &detCase{fs: fs, sig: fmt.Sprintf("files=%d dirs=%v yaml=%v ties=%v spellings=%v", len(fs.Files), o.Dirs, o.YAML, i%3 == 1, i%7 == 6)}
 		c.opts = append(RandArgs(r, nil), mappingOpts(r, fs, i%5 == 0)...)
+		if i%7 == 6 {
+			// ids with an empty fragment (common in draft-04 documents) and mapping keys in both spellings, with
+			// different values, plus a repeated key: whatever the tool makes of them, it is the same in every run
+			for k, f := range fs.Files {
+				if f.ID == "" {
+					continue
+				}
+				bare := f.ID
+				if k%2 == 0 {
+					f.ID += "#"
+					f.Root.ID = f.ID
+				}
+				c.opts = append(c.opts,
+					"--schema-root-type", bare+"#="+fmt.Sprintf("Hash%d", k), "--schema-root-type", bare+"="+fmt.Sprintf("Bare%d", k),
+					"--schema-package", bare+"#=example.com/mod/hashpkg", "--schema-output", bare+"#="+fmt.Sprintf("hashpkg/h%d.go", k),
+					"--schema-package", bare+"=example.com/mod/barepkg", "--schema-output", bare+"="+fmt.Sprintf("barepkg/b%d.go", k))
+				if r.Chance(0.5) {
+					c.opts = append(c.opts, "--schema-root-type", bare+"="+fmt.Sprintf("Again%d", k))
+				}
+			}
+		}
 		if !hasOutputMapping(c.opts) {
 			c.opts = append(c.opts, "-o", "gen/out.go")
 		} else {
